@@ -350,9 +350,9 @@ func run(r *core.Run) {
 
 	phase("V-string")
 	// ------------------------------------------------------------- V-symbol
-	symLen, wideLen, signLen := 4, 2, 5
+	symLen, wideLen, signLen, edgeSymLen := 4, 2, 5, 3
 	if thorough {
-		symLen, wideLen, signLen = 5, 3, 7
+		symLen, wideLen, signLen, edgeSymLen = 5, 3, 7, 4
 	}
 	r.Bound("V-symbol.contexts", len(symContexts))
 	var readable, unreadable int64
@@ -411,6 +411,7 @@ func run(r *core.Run) {
 	symbolRun("small", symAlphabet, symLen, nil)
 	symbolRun("wide", symAlphabetWide, wideLen, nil)
 	symbolRun("sign-colon", symAlphabetSign, signLen, map[string]bool{"paren": true, "pair": true, "before-open": true, "quoted": true})
+	symbolRun("utf8-edges", symAlphabetEdges, edgeSymLen, map[string]bool{"paren": true, "pair": true, "before-open": true, "quoted": true})
 	extra["symbol_spellings_readable"] = readable
 	extra["symbol_spellings_unreadable"] = unreadable
 
@@ -551,7 +552,7 @@ func run(r *core.Run) {
 		extLen = 3
 	}
 	r.Bound("T-tokens-ext.alphabet_size", len(tokAlphabetExt))
-	r.Bound("T-tokens-ext.extra_tokens", []string{"#xF", "#o7", "1", "\"u\\n", "#", "\\x80", "1."})
+	r.Bound("T-tokens-ext.extra_tokens", []string{"#xF", "#o7", "1", "\"u\\n", "#", "\\x80", "1.", "U+FEFF", "U+FFFD"})
 	r.Bound("T-tokens-ext.max_len", extLen)
 	for n := 1; n <= extLen; n++ {
 		n := n
@@ -569,6 +570,41 @@ func run(r *core.Run) {
 			w.process(toks, &seqOpts{level: lvProduct, frames: true, domain: "tokens-ext", nontriv: true, ws: n <= 2})
 		})
 	}
+
+	// string and raw-string literals that carry the boundary runes of UTF-8 decoding as RAW bytes
+	// (the printer escapes most of them, so only source text can put them there)
+	rawLen := 2
+	if thorough {
+		rawLen = 3
+	}
+	nraw := seqCount(len(rawAlphabet), rawLen) - 1
+	r.Bound("T-rawtext.alphabet", runeNames(rawAlphabet))
+	r.Bound("T-rawtext.max_len", rawLen)
+	r.Bound("T-rawtext.literals", 2*nraw)
+	core.ParallelRange(r, lim("T-rawtext", nraw), func(int) *seqWorker { return &seqWorker{r: r, t: p.get()} }, func(w *seqWorker, i int64) {
+		var d [8]int
+		ds := seqAt(len(rawAlphabet), i+1, d[:0])
+		var b strings.Builder
+		label := "plain"
+		for _, x := range ds {
+			b.WriteRune(rawAlphabet[x])
+			if label == "plain" && x < len(edgeRunes) {
+				label = fmt.Sprintf("U+%04X", rawAlphabet[x])
+			}
+		}
+		content := b.String()
+		if strings.ContainsRune(content, utf8.RuneError) {
+			label = "U+FFFD" // the one rune whose valid encoding decodes to the error value
+		}
+		want := &node{k: kStr, s: content}
+		for _, lit := range []struct{ kind, text string }{{"string", `"` + content + `"`}, {"raw-string", `"""` + content + `"""`}} {
+			t := at(lit.text)
+			w.process([]tok{t}, &seqOpts{level: lvProduct, frames: true, ws: true, expect: []*node{want},
+				domain: "rawtext:" + lit.kind + "-bare", symbol: label, symText: lit.text, nontriv: true})
+			w.process([]tok{tLP, t, at("a"), tRP}, &seqOpts{level: lvSingles, frames: true, ws: len(ds) == 1,
+				expect: []*node{listN(0, want, symN("a", 0))}, domain: "rawtext:" + lit.kind + "-in-list", symbol: label, symText: lit.text})
+		}
+	})
 
 	phase("T-tokens")
 	// -------------------------------------------------------------- T-bound
@@ -723,6 +759,14 @@ func depthOf(n *node) int {
 func wsClass() []string {
 	out := make([]string, len(wsRunes))
 	for i, r := range wsRunes {
+		out[i] = fmt.Sprintf("U+%04X", r)
+	}
+	return out
+}
+
+func runeNames(rs []rune) []string {
+	out := make([]string, len(rs))
+	for i, r := range rs {
 		out[i] = fmt.Sprintf("U+%04X", r)
 	}
 	return out
